@@ -76,4 +76,15 @@ def sliceTo {α : Type} (l : List α) (i : Int) : List α :=
 def sliceFrom {α : Type} (l : List α) (i : Int) : List α :=
   if 0 ≤ i then l.drop i.toNat else l.drop (l.length - (-i).toNat)
 
+/-- position of a slice bound `i` in a sequence of length `n` (negative from the end, clamped to `[0, n]`). -/
+def bound (n : Nat) (i : Int) : Nat := if 0 ≤ i then min i.toNat n else n - (-i).toNat
+
+/-- `l[a:b]`. -/
+def slice {α : Type} (l : List α) (a b : Int) : List α := (l.take (bound l.length b)).drop (bound l.length a)
+
+/-- `itertools.product(*ls)` as a list of lists (first factor slowest). -/
+def product {α : Type} : List (List α) → List (List α)
+  | [] => [[]]
+  | l :: ls => l.flatMap fun x => (product ls).map (x :: ·)
+
 end PrecondVerif.Gen.Py
